@@ -311,8 +311,13 @@ def run(check, repo, tier):
     sites = sorted(s for s, _ in codecs)
     need = {"GCodeCore.write/encode", "FileWriter.write", "LogWriter.write", "PrintrunWriter._send_statement"}
     check.floor(need <= set(sites), f"C14.R3: codec sites not all seen: missing {sorted(need - set(sites))}")
+    enc_names = {c.lower().replace("_", "-") if isinstance(c, str) else c for s_, c in codecs if s_.endswith("/encode")}
+    dec_names = names - enc_names if enc_names != names else names
+    ascii_into_utf8 = enc_names <= {"ascii", "us-ascii"} and dec_names <= {"utf-8", "utf8"}
     if len(names) == 1:
         check.ok("R3", f"one codec at all {len(sites)} sites: {sorted(names)}")
+    elif ascii_into_utf8:
+        check.ok("R3", f"the builder encodes as ASCII and the writers decode as UTF-8: every ASCII byte string decodes to the same text ({sorted(codecs)})")
     else:
         check.violation("R3", "codec-mismatch", f"encoder and decoders disagree on the codec: {sorted(codecs)}", [])
     check.analysed = dict(cr.stats, registration_paths=n4, filewriter_paths=n5, decoder_paths=n3, codec_sites=sorted(codecs))
